@@ -5,6 +5,7 @@
 package c04
 
 import (
+	"bytes"
 	"encoding/json"
 	"errors"
 	"fmt"
@@ -13,6 +14,7 @@ import (
 	"net/netip"
 	"strconv"
 	"strings"
+	"sync"
 	"unicode/utf8"
 
 	"github.com/AdguardTeam/golibs/netutil"
@@ -25,6 +27,7 @@ func init() {
 	vh.Register("c04", "replay-names", replayNames)
 	vh.Register("c04", "record", record)
 	vh.Register("c04", "probe", probe)
+	vh.Register("c04", "stress", stress)
 }
 
 // ------------------------------------------------------------ shared model
@@ -685,6 +688,132 @@ func ForEachSubst(f func(base, s string)) (n int) {
 	return n
 }
 
+// wantOfIP is the address IPFromReversedAddr has to return for the name of ip
+// (IPv4-mapped 16-byte forms are IPv4).
+func wantOfIP(ip []byte) Res {
+	if u := net.IP(ip).To4(); u != nil {
+		return Res{Ok: true, Fam: 4, Bits: 32, Bytes: []int{int(u[0]), int(u[1]), int(u[2]), int(u[3])}}
+	}
+	r := Res{Ok: true, Fam: 6, Bits: 128, Bytes: []int{}}
+	for _, b := range ip {
+		r.Bytes = append(r.Bytes, int(b))
+	}
+	return r
+}
+
+func intsOf(b []byte) []int {
+	out := make([]int, len(b))
+	for i, v := range b {
+		out[i] = int(v)
+	}
+	return out
+}
+
+// walkPhase replays the refuting history of ArpaState.tla's "alias" design on
+// the real encoder: address walks that REUSE one backing array across
+// consecutive IPToReversedAddr calls (in-place increments of every byte
+// position; 4-byte, 16-byte and IPv4-mapped buffers; both families alternating
+// in one 16-byte buffer, passed whole and as its 4-byte tail).  After every
+// call the argument must be unchanged and the returned name must decode to
+// the CURRENT bytes; the call is logged as an "enc" event so that TLC compares
+// the name with EncodeIP of the current bytes; all returned names are retained
+// and verified again at the end (results of earlier calls never change).
+func walkPhase(tr *vh.Trace, res *vh.Result) (calls int) {
+	type kept struct {
+		name, clone string
+		ip          []byte
+	}
+	var retained []kept
+	var prev []byte
+	step := func(ip net.IP) {
+		before := bytes.Clone(ip)
+		var name string
+		var err error
+		calls++
+		pv, panicked := vh.Try(func() { name, err = netutil.IPToReversedAddr(ip) })
+		key := fmt.Sprintf("IPToReversedAddr(%v) after IPToReversedAddr(%v) on the same backing array", before, prev)
+		d := map[string]any{"func": "IPToReversedAddr", "ip": intsOf(before), "previous_ip": intsOf(prev), "got": name}
+		defer func() { prev = before }()
+		switch {
+		case panicked:
+			res.Mismatch(key, fmt.Sprintf("panic: %v", pv), d)
+			return
+		case err != nil:
+			res.Mismatch(key, "returned an error for a 4- or 16-byte address: "+err.Error(), d)
+			return
+		case !bytes.Equal(ip, before):
+			d["ip_after"] = intsOf(ip)
+			res.Mismatch(key, "the call modified its argument", d)
+			return
+		}
+		want := wantOfIP(before)
+		calls++
+		got, _, _, _ := CallIP(name)
+		if !got.Equal(want) {
+			d["name_decodes_to"] = got
+			res.Mismatch(key, fmt.Sprintf("returned %q, which is the name of %v, not of the current bytes %v: the result depends on an earlier call",
+				name, got, want), d)
+			return
+		}
+		retained = append(retained, kept{name: name, clone: strings.Clone(name), ip: before})
+		tr.Emit(Event{Op: "enc", IP: intsOf(before), Name: Tokens(name), Bytes: []int{}})
+	}
+	// 4-byte buffer, every position.
+	b4 := net.IP{10, 0, 0, 0}
+	step(b4)
+	for pos := 3; pos >= 0; pos-- {
+		for k := 0; k < 260; k++ {
+			b4[pos]++
+			step(b4)
+		}
+	}
+	// 16-byte buffer, every position.
+	b16 := net.IP{0x20, 0x01, 0x0d, 0xb8, 0, 0, 0, 0, 0, 0, 0, 0, 0, 0, 0, 0}
+	step(b16)
+	for pos := 15; pos >= 0; pos-- {
+		for k := 0; k < 260; k++ {
+			b16[pos]++
+			step(b16)
+		}
+	}
+	// IPv4-mapped 16-byte buffer, the four address bytes.
+	m := net.IP{0, 0, 0, 0, 0, 0, 0, 0, 0, 0, 0xff, 0xff, 10, 0, 0, 0}
+	step(m)
+	for pos := 15; pos >= 12; pos-- {
+		for k := 0; k < 260; k++ {
+			m[pos]++
+			step(m)
+		}
+	}
+	// Both families alternating in one 16-byte buffer, whole and 4-byte tail.
+	for k := 0; k < 600; k++ {
+		m[15]++
+		switch k % 4 {
+		case 0:
+			m[10], m[11] = 0xff, 0xff
+			step(m)
+		case 1:
+			m[10] = byte(k)
+			step(m)
+		case 2:
+			step(m[12:16])
+		default:
+			m[0] ^= 0x20
+			step(m)
+			step(m[12:16])
+		}
+	}
+	for _, k := range retained {
+		calls++
+		got, _, _, _ := CallIP(k.name)
+		if k.name != k.clone || !got.Equal(wantOfIP(k.ip)) {
+			res.Mismatch(fmt.Sprintf("retained result of IPToReversedAddr(%v)", k.ip),
+				fmt.Sprintf("the name returned earlier is now %q (was %q) and decodes to %v", k.name, k.clone, got), nil)
+		}
+	}
+	return calls
+}
+
 func record(args []string) error {
 	if len(args) != 4 {
 		return fmt.Errorf("usage: record <trace-out> <result> <cases> <logged>")
@@ -727,6 +856,8 @@ func record(args []string) error {
 		}
 		tr.Emit(EventOf("ip", s, true, d.Got))
 	})
+	walkCalls := walkPhase(tr, res)
+	calls += walkCalls
 	for i := 0; i < total; i++ {
 		log := i%stride == 0
 		ip := RandAddr(rng)
@@ -805,7 +936,115 @@ func record(args []string) error {
 		return err
 	}
 	return res.Close(map[string]any{"cases": total, "calls": calls, "events": tr.N, "edited_accepts": accepts, "distinct_nontrivial": dd.N(),
-		"subst_inputs": nSubst, "subst_accepts": substAcc})
+		"subst_inputs": nSubst, "subst_accepts": substAcc, "walk_calls": walkCalls})
+}
+
+// ------------------------------------------------------------ stress (under -race)
+
+// stress runs the codec from several goroutines without any instrumentation
+// (built with -race by the orchestrator): every goroutine owns its addresses
+// and one reusable buffer; the expected names are computed beforehand,
+// sequentially, from fresh slices.  A package-level memo shows up as wrong
+// names and as a data race with a golibs frame.
+func stress(args []string) error {
+	if len(args) != 3 {
+		return fmt.Errorf("usage: stress <result> <goroutines> <rounds>")
+	}
+	ng, _ := strconv.Atoi(args[1])
+	rounds, _ := strconv.Atoi(args[2])
+	if ng <= 0 || rounds <= 0 {
+		return fmt.Errorf("bad counts %q %q", args[1], args[2])
+	}
+	res, err := vh.NewResult(args[0])
+	if err != nil {
+		return err
+	}
+	rng := vh.Rand(44)
+	type unit struct {
+		ip   []byte
+		name string
+		want Res
+	}
+	units := make([][]unit, ng)
+	for g := range units {
+		for k := 0; k < 64; k++ {
+			ip := []byte(RandAddr(rng))
+			ip[len(ip)-1] = byte(g) // distinct per goroutine
+			if len(ip) == 16 {
+				ip[0] = byte(0x20 + g)
+			}
+			name, err := netutil.IPToReversedAddr(bytes.Clone(ip))
+			want := wantOfIP(ip)
+			if got, _, _, _ := CallIP(name); err != nil || !got.Equal(want) {
+				res.Mismatch(fmt.Sprintf("IPToReversedAddr(%v)", ip), fmt.Sprintf("sequential preparation: %q, %v does not round-trip", name, err), nil)
+				continue
+			}
+			units[g] = append(units[g], unit{ip: ip, name: name, want: want})
+		}
+	}
+	type failure struct{ key, what string }
+	fails := make([][]failure, ng)
+	var wg sync.WaitGroup
+	var calls int64
+	var mu sync.Mutex
+	for g := 0; g < ng; g++ {
+		wg.Add(1)
+		go func(g int) {
+			defer wg.Done()
+			n := int64(0)
+			buf4, buf16 := make(net.IP, 4), make(net.IP, 16)
+			for r := 0; r < rounds; r++ {
+				for _, u := range units[g] {
+					buf := buf4
+					if len(u.ip) == 16 {
+						buf = buf16
+					}
+					copy(buf, u.ip)
+					var name string
+					var err error
+					pv, p := vh.Try(func() { name, err = netutil.IPToReversedAddr(buf) })
+					n++
+					if p || err != nil || name != u.name {
+						fails[g] = append(fails[g], failure{fmt.Sprintf("concurrent IPToReversedAddr(%v)", u.ip),
+							fmt.Sprintf("returned %q, %v (panic %v); alone it returns %q", name, err, pv, u.name)})
+					}
+					got, _, pv2, p2 := CallIP(u.name)
+					n++
+					if p2 || !got.Equal(u.want) {
+						fails[g] = append(fails[g], failure{"concurrent " + Key("IPFromReversedAddr", u.name),
+							fmt.Sprintf("returned %v (panic %v); alone it returns %v", got, pv2, u.want)})
+					}
+					var p1, p2x netip.Prefix
+					var e1, e2 error
+					_, p3 := vh.Try(func() {
+						p1, e1 = netutil.PrefixFromReversedAddr(u.name)
+						p2x, e2 = netutil.ExtractReversedAddr("host." + u.name)
+					})
+					n += 2
+					wp, _ := u.want.Prefix()
+					if p3 || e1 != nil || e2 != nil || p1 != wp || p2x != wp {
+						fails[g] = append(fails[g], failure{"concurrent prefix decoding of " + strconv.Quote(u.name),
+							fmt.Sprintf("returned %v, %v / %v, %v; alone %v", p1, e1, p2x, e2, wp)})
+					}
+				}
+			}
+			mu.Lock()
+			calls += n
+			mu.Unlock()
+		}(g)
+	}
+	wg.Wait()
+	nu := 0
+	for g := range fails {
+		nu += len(units[g])
+		for i, f := range fails[g] {
+			if i >= 5 {
+				break
+			}
+			res.Mismatch(f.key, f.what, nil)
+		}
+	}
+	return res.Close(map[string]any{"stress_calls": calls, "stress_units": nu, "goroutines": ng, "rounds": rounds})
 }
 
 // ------------------------------------------------------------ probe (--replay)
